@@ -4,6 +4,7 @@ import Rare.Model.C01
 import Rare.Gen.Tables
 import Rare.Gen.Skeleton
 import Rare.Model.PipelineSkeleton
+import Rare.Proofs.PipelineTrace
 /-!
 # C01 — every input line is read exactly once and classified exactly once
 
@@ -236,5 +237,100 @@ example : ∃ s, Reach (fun n : Nat => if n % 2 = 0 then Cls.matched else Cls.un
   obtain ⟨s, hr, hd⟩ := pipeline_reaches_end (fun n : Nat => if n % 2 = 0 then Cls.matched else Cls.unmatched)
     (R := 2) (B := 1) (K := 5) (by decide) (by decide) (by decide) _ _ _ .refl (Nat.le_refl _)
   exact ⟨s, hr, hd, (pipeline_final _ 2 1 5 3 (by decide) _ hr hd).1⟩
+
+/-! ## Trace inclusion: the event log of a real run is a path of the transition system
+
+`Rare.PipelineTrace` (Model/PipelineTrace.lean, Model/C01C05TraceOrder.lean): the `verif` hooks log one event
+per channel / semaphore / close operation, per line classified and per goroutine start/exit of the real
+batcher + extractor.  The checker accepts a log when some *admissible* reordering of it (every goroutine's
+events in their logged order; every event inside the time interval that "logged before / after its
+action" leaves open) replays through the named transition function `Pipeline.apply` from `init` to a
+state where the consumer has seen the end of the stream. -/
+
+section Trace
+open Rare.TraceOrder Rare.PipelineTrace
+
+/-- The named transition function the trace checker executes is exactly the transition relation the
+    theorems above are about (no transition is missing, none is added). -/
+theorem trace_labels_are_steps (cls : α → Cls) (R B K : Nat) (s s' : St α) :
+    Step cls R B K s s' ↔ ∃ l, Pipeline.apply cls R B K s l = some s' :=
+  ⟨apply_complete, fun ⟨_, h⟩ => apply_sound h⟩
+
+/-- `accepts_sound`: if the checker accepts the log `tr` of a real run, then there are an admissible
+    reordering `sched` of the log and a labelled path of the transition system from `init` whose labels
+    are, event by event in that order, the transitions the logged events stand for (`EvPath`), and it
+    ends with the consumer at the end of the stream.  In particular the final state is reachable. -/
+theorem trace_accepts_sound (cfg : Cfg) (wg : List Nat) (L : Lin PSt) (batches : List (List (List Line)))
+    (tr : Array Ev) (h : TraceOrder.accepts (machine cfg wg) L (initSt cfg batches) tr = true) :
+    ∃ sched labels ps, Admissible tr sched ∧
+      EvPath cfg wg (initSt cfg batches) (sched.map (evAt tr)) labels ps ∧
+      LPath harnessCls cfg.R cfg.B cfg.K (init batches cfg.W) labels ps.lts ∧
+      Reach harnessCls cfg.R cfg.B cfg.K (init batches cfg.W) ps.lts ∧
+      ps.lts.consDone = true := by
+  obtain ⟨sched, ps, hadm, hrep, hfin⟩ := TraceOrder.accepts_sound h
+  obtain ⟨labels, hev⟩ := replay_evpath _ _ _ hrep
+  have hl := hev.lpath
+  refine ⟨sched, labels, ps, hadm, hev, hl, hl.reach .refl, ?_⟩
+  simp only [machine, Bool.and_eq_true] at hfin
+  exact hfin.1
+
+/-- Every state the accepted run goes through (after any number of its events) is a reachable state of
+    the transition system, so every invariant proved for reachable states — line conservation, counter
+    equalities, closed-channel discipline, capacities — holds of the states of the real run. -/
+theorem trace_states_invariant (cfg : Cfg) (wg : List Nat) (batches : List (List (List Line)))
+    (evs : List Ev) (ps : PSt) (h : replay (machine cfg wg) (initSt cfg batches) evs = some ps) (k : Nat) :
+    ∃ psk, replay (machine cfg wg) (initSt cfg batches) (evs.take k) = some psk ∧
+      Reach harnessCls cfg.R cfg.B cfg.K (init batches cfg.W) psk.lts ∧
+      Inv harnessCls cfg.B cfg.K (batches.flatMap List.flatten) psk.lts := by
+  rw [← List.take_append_drop k evs] at h
+  obtain ⟨psk, h1, _⟩ := replay_append _ _ _ _ _ h
+  obtain ⟨labels, hev⟩ := replay_evpath _ _ _ h1
+  have hr : Reach harnessCls cfg.R cfg.B cfg.K (init batches cfg.W) psk.lts := hev.lpath.reach .refl
+  exact ⟨psk, h1, hr, pipeline_invariant harnessCls cfg.R cfg.B cfg.K cfg.W batches hr⟩
+
+/-- An accepted log ends in a state whose consumer multiset and counters are those of the sequential
+    evaluation of the configured inputs' bytes: the batches the checker derived from the logged flushes
+    (and checked against the batching-loop model) partition the inputs' lines. -/
+theorem trace_final (cfg : Cfg) (hW : 1 ≤ cfg.W) (wg : List Nat) (L : Lin PSt) (evs : List Ev)
+    (batches : List (List (List Line))) (hb : batchesOf cfg evs = some batches)
+    (tr : Array Ev) (h : TraceOrder.accepts (machine cfg wg) L (initSt cfg batches) tr = true) :
+    ∃ ps : PSt, Reach harnessCls cfg.R cfg.B cfg.K (init batches cfg.W) ps.lts ∧
+      ps.lts.consumed.Perm (seqMatches harnessCls (allLines cfg.inputs)) ∧
+      (⟨ps.lts.nRead, ps.lts.nMatched, ps.lts.nIgnored⟩ : Totals) = seqTotals harnessCls (allLines cfg.inputs) := by
+  obtain ⟨_, _, ps, _, _, _, hr, hd⟩ := trace_accepts_sound cfg wg L batches tr h
+  have hf := pipeline_final harnessCls cfg.R cfg.B cfg.K cfg.W hW batches hr hd
+  simp only [batchesOf_lines hb] at hf
+  exact ⟨ps, hr, hf.1, by simp [seqTotals, hf.2.1, hf.2.2.1, hf.2.2.2.1]⟩
+
+/-- Non-vacuity of `trace_accepts_sound` / `trace_final`: the small real-shaped log
+    `PipelineTrace.exampleLog` (the worker logs its first receive late) is accepted (the schedule found
+    must move the late `wr` before the second `fl`, because the batch channel has capacity 1) … -/
+example : ∃ batches, batchesOf exampleCfg exampleLog = some batches ∧
+    TraceOrder.accepts (machine exampleCfg (workerGs exampleLog)) (lin (workerGs exampleLog) exampleLog)
+      (initSt exampleCfg batches) exampleLog.toArray = true :=
+  ⟨[[[⟨0, 1, [97, 98]⟩], [⟨0, 2, [120]⟩]]], by decide, by decide⟩
+
+/-- … the log order itself is NOT a path (the second send finds the channel full): the reordering is
+    needed, and it is constrained — … -/
+example : ∀ batches, batchesOf exampleCfg exampleLog = some batches →
+    replay (machine exampleCfg (workerGs exampleLog)) (initSt exampleCfg batches) exampleLog = none := by
+  intro batches hb
+  have : batchesOf exampleCfg exampleLog = some [[[⟨0, 1, [97, 98]⟩], [⟨0, 2, [120]⟩]]] := by decide
+  rw [this] at hb
+  cases hb
+  decide
+
+/-- … a log in which the worker classifies the unmatched line `x` as matched is rejected. -/
+example : ∀ batches, batchesOf exampleCfg exampleLog = some batches →
+    TraceOrder.accepts (machine exampleCfg (workerGs exampleLog)) (lin (workerGs exampleLog) exampleLog)
+      (initSt exampleCfg batches)
+      (exampleLog.map fun e => if e.kind = "lu" then { e with kind := "lm" } else e).toArray = false := by
+  intro batches hb
+  have : batchesOf exampleCfg exampleLog = some [[[⟨0, 1, [97, 98]⟩], [⟨0, 2, [120]⟩]]] := by decide
+  rw [this] at hb
+  cases hb
+  decide
+
+end Trace
 
 end Rare.C01
